@@ -376,8 +376,7 @@ type LState struct {
 	mainLoop     func(*LState, *callFrame)
 	ctx          context.Context
 	ctxCancelFn  context.CancelFunc
-	ctxCreator   *LState // the thread whose context this thread's context was derived from
-	ctxChildren  int     // threads derived from this one that still hold their context
+	ctxNode      *ctxNode // bookkeeping of the context derived by NewThread
 }
 
 func (ls *LState) String() string   { return fmt.Sprintf("thread: %p", ls) }
